@@ -3,7 +3,7 @@
    unwinding alike; R is symbolic (the check requires the implementation's R to be 8). *)
 From stdpp Require Import gmap list.
 From Coq Require Import NArith.
-From G Require Import Arith Monad Types Inv Raw Map Cost Theorems.
+From G Require Import Arith Monad Types Inv Raw Map Cost EntryCost Theorems.
 Local Open Scope N_scope.
 
 (* HashMap::insert (new key, or overwrite in either table): at most 1 + R hash computations (the
@@ -31,6 +31,26 @@ Theorem C02_removal_constant : forall c k s,
   end.
 Proof. exact T_C02_remove. Qed.
 
+(* every step of an entry / raw-entry chain (the inserting ones included) costs at most what an
+   insert costs *)
+Theorem C02_entry_step_bounded : forall c raw e st0 s,
+  match entry_step c raw e st0 s with
+  | Ok _ s' | Unwind _ s' => log_within (D (1 + cR c) (cR c) 1 2) s s'
+  | Fault _ => True
+  end.
+Proof. exact T_C02_entry_step. Qed.
+
+(* entry(k) followed by n steps: the lookup's hash, then n bounded steps *)
+Theorem C02_entry_chain_bounded : forall c k kid ss s,
+  match map_entry c k kid ss s with
+  | Ok _ s' | Unwind _ s' =>
+      log_within (dadd (D 1 0 0 0) (dmul (N.of_nat (length ss)) (D (1 + cR c) (cR c) 1 2))) s s'
+  | Fault _ => True
+  end.
+Proof. exact T_C02_entry_chain. Qed.
+
 Print Assumptions C02_insert_bounded.
+Print Assumptions C02_entry_step_bounded.
+Print Assumptions C02_entry_chain_bounded.
 Print Assumptions C02_lookup_constant.
 Print Assumptions C02_removal_constant.
